@@ -25,9 +25,10 @@ LEVEL_TEXT = ("Hundreds (quick) to tens of thousands (thorough) of seeded histor
               "kinds, every consultation answered by a random decision. Each message that reached a node and the final outcome are compared "
               "with the replay of the logged decisions. Held-on-observed histories; not exhaustive (the decision x error space is sampled).")
 LEVEL_NOTE = ("Trusted base: sim/world.py, sim/node.py, spec/frames.py (independent request parser), the reference walk in this module. "
-              "Assumes the reading that RETRY targets the same host and falls through to the next host of the plan only when that host has "
-              "no usable pool any more (connection loss marks the host down with the default conviction policy). Time plays no role except "
-              "in the speculative phase, where it is advanced explicitly (no timeout/response races: those belong to C14/C15).")
+              "Reading used: RETRY targets the same host and falls through to the next host of the plan only when that host has no usable "
+              "pool (which hosts have one is read from session._pools at quiescence before every statement; right after a connection loss "
+              "both continuations are accepted, because a concurrent pool renewal may or may not have won). Time plays no role except in "
+              "the speculative phase, where it is advanced explicitly (no timeout/response races: those belong to C14/C15).")
 QUICK_WORKERS = 4
 WORKERS = 14
 
@@ -335,8 +336,10 @@ def run(ctx):
     n = ctx.scale(900, 70000)
     budget = 40 if ctx.quick else 420
     base = ctx.seed * 1000003 + (ctx.worker or 0) * 100003
+    # the time budget bounds the run on a normal machine; on an overloaded one the floors are still reached (count first, capped)
+    min_here = -(-240 // max(1, ctx.nworkers))
     for i in range(n):
-        if ctx.time_left(budget) < 0:
+        if ctx.time_left(budget) < 0 and (i >= min_here or ctx.time_left(budget * (5 if ctx.quick else 2)) < 0):
             ctx.note("stopped by time budget after %d histories" % i)
             break
         seed = base + i
